@@ -279,7 +279,8 @@ pub fn gen_directed(g: &mut ExprGen) -> ExprRef {
             let hi_a = lo_a + g.rng.below((src_w - lo_a) as u64) as WidthInt;
             let sa = g.ctx.slice(x, hi_a, lo_a);
             let sb = g.ctx.slice(x, hi_b, lo_b);
-            g.ctx.concat(sa, sb)
+            // also the swapped order (a rotate / field swap): must NOT be merged into one slice
+            if g.rng.chance(1, 3) { g.ctx.concat(sb, sa) } else { g.ctx.concat(sa, sb) }
         }
         38..=52 => {
             // slice of <something>
